@@ -813,3 +813,27 @@ package keeper
 //@ serves C19
 //@ ensures[C19.cb] err == nil ==> len(perMessageBurnLimits) == old(len(perMessageBurnLimits)) + 1 && perMessageBurnLimits[old(len(perMessageBurnLimits))].Denom == decoded(PerMessageBurnLimit, Denom, value) && perMessageBurnLimits[old(len(perMessageBurnLimits))].Amount.v == decoded(PerMessageBurnLimit, Amount_v, value)
 //@ ensures[C19.cb.keep] forall j: int :: 0 <= j && j < old(len(perMessageBurnLimits)) ==> perMessageBurnLimits[j].Denom == old(perMessageBurnLimits[j].Denom) && perMessageBurnLimits[j].Amount.v == old(perMessageBurnLimits[j].Amount.v)
+
+// The remaining full-collection reads. Same shape as GetAllAttesters (which is proved against the store
+// iterator model); for these four the list view of the collection is an abstract component and the contract
+// is assumed: the iterator yields the collection's entries in key order.
+
+//@ func (Keeper) GetAllPerMessageBurnLimits(ctx) (list)
+//@ trusted
+//@ ensures[all] list == stLimits()
+//@ modifies none
+
+//@ func (Keeper) GetAllTokenPairs(ctx) (list)
+//@ trusted
+//@ ensures[all] list == stPairs()
+//@ modifies none
+
+//@ func (Keeper) GetAllUsedNonces(ctx) (list)
+//@ trusted
+//@ ensures[all] list == stNonces()
+//@ modifies none
+
+//@ func (Keeper) GetRemoteTokenMessengers(ctx) (list)
+//@ trusted
+//@ ensures[all] list == stMessengers()
+//@ modifies none
